@@ -538,10 +538,11 @@ def concrete_fallback(mod, cfg, st, why):
     on generic concrete values: an obligation that fails there is an ordinary, already replayed counterexample; if none fails the harness error stands."""
     spec = mod.inputs(cfg)
     found = False
-    for variant in (0, 1):
+    for variant in (0, 1, 2, 3):
         vals = {}
         for i, (n, k) in enumerate(sorted(spec.items())):
-            vals[n] = (i + 2) if k == "int" else Fraction(2 * i + 3 + variant * 7, 4) * (-1 if (i + variant) % 3 == 2 else 1)
+            sign = {0: 1, 1: -1, 2: (-1) ** i, 3: (-1) ** (i + 1)}[variant]  # all positive, all negative, alternating both ways
+            vals[n] = (i + 2) * (sign if variant else 1) if k == "int" else Fraction(2 * i + 3 + variant * 7, 4) * sign
         try:
             Vc, Tc = concrete_inputs(spec, vals)
             obs = run_concrete(mod, cfg, Vc)
